@@ -892,9 +892,11 @@ impl Session {
             return Ok(());
         }
 
-        // Flush buffer if any
+        // Flush buffer if any. The buffer lock is kept until this frame has been handed to the
+        // transport: otherwise a second writer could pass here while the drained bytes (the
+        // settings frame, a SYN) are still on their way to the writer lock and overtake them.
+        let mut buf = self.buffer.lock().await;
         {
-            let mut buf = self.buffer.lock().await;
             if !buf.is_empty() {
                 let buffered_len = buf.len();
                 tracing::debug!(
@@ -934,7 +936,9 @@ impl Session {
         }
 
         // Write with padding if enabled
-        self.write_with_padding(buffer).await
+        let result = self.write_with_padding(buffer).await;
+        drop(buf);
+        result
     }
 
     /// Write buffer to connection with padding applied
